@@ -27,15 +27,23 @@ PROP = dict(
         "idealisation: collision-freedom of H on the two canonical representations (CollisionFree H [canonRepr .., canonRepr ..]); "
         "it distinguishes destinations fully and bodies by their representation hash; the canonical cells must be well "
         "formed (Spec.WFExotic) and within the depth limit",
-        "source_boc_roundtrip uses C01 roundtrip; the premise that remains is C01's own order_valid (the order computed by "
-        "importCell/reorderCells/revisit for the source cell is a valid layout unfolding to it), plus the format's size "
-        "limits; on the Go side DeserializeBoc(SourceBoc()) is checked directly for every real transaction, with and "
-        "without hasher",
+        "source_boc_roundtrip goes through C01 roundtrip_go_writer (the writer's order is a theorem there, order_valid): the "
+        "premises left are that the writer's de-duplication key (hex representation hash) identifies the sub-cells of the "
+        "one source cell (KeyInjOn: no hash collision inside it) and the format's size limits; on the Go side "
+        "DeserializeBoc(SourceBoc()) is checked directly for every real transaction, with and without hasher",
         "layout_matches_go_descriptor ties the hand-written bit layout to the descriptor regenerated from tlb/messages.go "
         "through C04 impl_eq_spec_Message, in the domain of the transcribed block.tlb (anycast depth <= 30, no extra "
         "currencies, empty state-init library, ordinary body cell)",
-        "msg_hash_hasher_independent assumes a sound hasher cache (C02 cache_sound); on the Go side hasher and plain "
-        "decoders are compared on every message and transaction (cold and warm cache)",
+        "mutable cells (TongoModel/MessageHeap.lean): pointers to cells with a bit cursor and a reference cursor, NextRef "
+        "rewinding the child in place, ResetCounters, a decoder with no hasher or with a boc.Hasher whose memo table persists "
+        "(C02 Memo.hashMemo). Hashing and serialising read the rows (data, length, type, mask, reference slots), never a "
+        "cursor — as newImmutableCell does; msg_hash_is_cell_hash requires the hasher table to satisfy C02's CacheInv (true "
+        "of a new hasher and preserved by every call: the cells must not have been MUTATED since they were hashed — a "
+        "hasher used across writes to a cell is outside the model, as the Go comment on Hasher says). Nil pointers are not "
+        "modelled. The fields reported at this level are the cursor-free decode over pointers; the end-to-end layout "
+        "theorems (norm_*, msg_roundtrip_all_kinds) are stated on immutable trees and are not transported to pointers",
+        "Message.Hash(true) discards the error of Hash256 (an unhashable canonical cell yields the zero hash in Go); the model "
+        "keeps the Outcome — the theorems about the normalised hash are about canonical cells that can be hashed",
         "StateInit is modelled shallowly (the library dictionary is its root reference); body cells are ordinary cells "
         "(CopyRemaining turns an exotic body reference into an ordinary cell)",
         "Transaction field decoding is not modelled: the model of Transaction.UnmarshalTLB is the hash/source capture; real "
@@ -44,11 +52,20 @@ PROP = dict(
     partial=[
         "decode-after-encode is proved for all three kinds (msg_roundtrip_all_kinds) with extra currencies absent; an internal "
         "message carrying an extra-currency dictionary is covered by the correspondence only",
-        "source_boc_roundtrip is relative to C01 order_valid (not proved by the boc slice either: checked per input)",
+        "by construction (they unfold the tree-level definitions, marked so in their docstrings): msg_hash_tree_level, "
+        "msg_fields_tree_level, tx_capture_tree_level, non_extin_unchanged, norm_hash_def; norm_depends_only_on_dest_body is "
+        "immediate from norm_hash_def — the content of 'depends only on destination and body' is "
+        "norm_ignores_src_fee_init_placement (encode -> decode end to end)",
     ],
-    level_text="Theorems for ALL inputs about the model: the reported message / transaction hash is the representation hash "
-               "of the whole source cell, fields are decoded from the start of the cell (msg_hash_is_cell_hash, "
-               "msg_fields_from_start, tx_hash_is_cell_hash); the normalised hash equals the hash of the canonical cell and is "
+    level_text="Theorems for ALL inputs about the model. On MUTABLE cells: for a cell in any cursor state (partly read, left "
+               "over from an earlier decode, descendants likewise) and a decoder with any valid hasher memo table or none, "
+               "Message.UnmarshalTLB reports Cell.Hash of the tree the pointer denotes and the fields decoded from the first "
+               "bit and first reference — a closed form that mentions neither cursors nor the hasher (msg_hash_is_cell_hash, "
+               "msg_hash_hasher_and_cursor_independent, derived from C02 cache soundness, not assumed); the same for "
+               "transactions (tx_hash_is_cell_hash, source_boc_of_mutable_cell); an enclosing record with k ^Message / "
+               "^Transaction fields reports for each the hash of ITS source cell (enclosing_record_message_hashes, "
+               "enclosing_record_tx_hashes; acyclicity of the heap below a pointer that denotes a tree is proved). On "
+               "immutable trees: the normalised hash equals the hash of the canonical cell and is "
                "the schema-level re-encoding of the canonical parts, which is a fixed point (norm_hash_def, "
                "norm_is_canonical_reencoding, canonical_is_fixed_point); it depends only on (destination without a standard "
                "address's anycast, body) — proved end to end through encode → decode for every well-formed source address, "
@@ -59,13 +76,13 @@ PROP = dict(
                "decode-after-encode for internal, external-in and external-out messages (msg_roundtrip_all_kinds); the layout is "
                "the one block.tlb prescribes and the one of the regenerated Go descriptor (layout_is_block_tlb, "
                "layout_matches_go_descriptor: a changed struct tag in tlb/messages.go breaks an obligation); "
-               "source_boc_roundtrip through C01 roundtrip; source_boc_tracks_last_decode: on ONE reused Transaction variable "
+               "source_boc_roundtrip through C01 roundtrip_go_writer (whole Go writer, order included); source_boc_tracks_last_decode: on ONE reused Transaction variable "
                "SourceBoc and Hash are functions of the LAST decoded source, whatever the order of the calls. "
                "Tie: exact comparison of Go's Hash(false)/Hash(true) with the model on ~11k messages and ~2k transactions per run "
-               "(plain and hasher-carrying decoders, with and without a pruned branch below the source cell), plus direct oracles (hash == Cell.Hash with/without hasher, moved cursors, enclosing "
+               "(plain and hasher-carrying decoders, with and without a pruned branch below the source cell), msg.hash.moved: the message cell handed over with cursors moved and the hasher warmed), plus direct oracles (hash == Cell.Hash with/without hasher, moved cursors, enclosing "
                "records, equal/unequal classes, canonical re-encoding through tlb.Marshal, SourceBoc parsed back, Hash(true) "
                "leaves the message unchanged).",
-    level_note="trusted: Lean kernel, the C02 specification of the hash, the block.tlb transcription of C04, the harness; open "
-               "premise: C01 order_valid",
+    level_note="trusted: Lean kernel, the C02 specification of the hash and its memo-table model, the block.tlb transcription of "
+               "C04, the harness",
     technique="Lean 4 model + theorems; differential correspondence on synthetic and real cells; direct oracles",
 )
